@@ -488,7 +488,8 @@ min }
 
 
 
-    fn merge ( & mut self , other : & CountMinSketch < T > ) requires old ( self ) . wf ( ) , other . wf ( ) , old ( self ) . num_hashes == other . num_hashes , old ( self ) . num_buckets == other . num_buckets , old ( self ) . seed == other . seed , T :: in_range ( old ( self ) . total_weight . val ( ) + other . total_weight . val ( ) ) , forall | i : int | 0 <= i < old ( self ) . counts @ . len ( ) ==> # [ trigger ] fits ( old ( self ) . counts @ [ i ] , other . counts @ [ i ] ) , ensures final ( self ) . wf ( ) ,
+    fn merge ( & mut self , other : & CountMinSketch < T > ) requires old ( self ) . wf ( ) , other . wf ( ) , T :: in_range ( old ( self ) . total_weight . val ( ) + other . total_weight . val ( ) ) , forall | i : int | 0 <= i < old ( self ) . counts @ . len ( ) ==> # [ trigger ] fits ( old ( self ) . counts @ [ i ] , other . counts @ [ i ] ) , ensures final ( self ) . wf ( ) ,
+/*@C08.merge_compatible*/ old ( self ) . num_hashes == other . num_hashes && old ( self ) . num_buckets == other . num_buckets && old ( self ) . seed == other . seed ,
 /*@C18.cm_fixed_size*/ final ( self ) . same_config ( old ( self ) ) ,
 /*@C08.merge_cells*/ forall | i : int | 0 <= i < old ( self ) . counts @ . len ( ) ==> # [ trigger ] final ( self ) . counts @ [ i ] . val ( ) == old ( self ) . counts @ [ i ] . val ( ) + other . counts @ [ i ] . val ( ) ,
 /*@C08.merge_total*/ final ( self ) . total_weight . val ( ) == old ( self ) . total_weight . val ( ) + other . total_weight . val ( ) ,
@@ -496,10 +497,10 @@ min }
 if vx_ptr_eq ( self , other ) {
 panic! ( ) ;
 }
-assert! ( self . num_hashes == other . num_hashes ) ;
-assert! ( self . num_buckets == other . num_buckets ) ;
-assert! ( self . seed == other . seed ) ;
-assert! ( self . counts . len ( ) == other . counts . len ( ) ) ;
+vx_documented_panic ( self . num_hashes == other . num_hashes ) ;
+vx_documented_panic ( self . num_buckets == other . num_buckets ) ;
+vx_documented_panic ( self . seed == other . seed ) ;
+vx_documented_panic ( self . counts . len ( ) == other . counts . len ( ) ) ;
 let counts_len = self . counts . len ( ) ;
 let ghost tw0 = self . total_weight ;
 #[verifier::loop_isolation(false)]
@@ -627,6 +628,10 @@ pub uninterp spec fn decay_ok(d: f64) -> bool;
 fn vx_decay_in_range(decay: f64) -> (r: bool)
   ensures r == decay_ok(decay)
 { decay > 0.0 && decay <= 1.0 }
+
+// R12b: a DOCUMENTED panic (`assert_eq!` on the compatibility of merge partners) is modelled as 'returns only if the condition holds':
+// the condition becomes a POSTCONDITION of merge (C08.merge_compatible) instead of a precondition, so weakening the check is noticed
+#[verifier::external_body] fn vx_documented_panic(c: bool) ensures c { assert!(c); }
 
 // Finding carrier (C17): upper_bound is documented for every sketch, but estimate + error must fit the counter type, which wf() does
 // not give (u8 sketch, total 200: error 181).  The precondition C17.cm_upper_bound_fits of upper_bound is therefore NOT established here.
